@@ -384,7 +384,11 @@ pub fn install_panic_hook(verbose: bool) {
             let via_repo = if location_in_repo(&location) || location.starts_with("src/") || location.contains("/verif/sim/") {
                 None
             } else {
-                innermost_repo_frame(&std::backtrace::Backtrace::force_capture().to_string())
+                let bt = std::backtrace::Backtrace::force_capture().to_string();
+                if std::env::var("AGSIM_BT").is_ok() {
+                    eprintln!("[backtrace of a panic in a dependency]\n{bt}");
+                }
+                innermost_repo_frame(&bt)
             };
             let virt_ms = VIRT_MS.with(|v| v.try_borrow().map(|v| *v).unwrap_or(0));
             let task = TASK_NAME.with(|t| t.try_borrow().map(|t| t.clone()).unwrap_or_default());
@@ -403,14 +407,21 @@ pub fn install_panic_hook(verbose: bool) {
 /// Walks a backtrace from the panic site outwards and returns the first frame of the crate under
 /// test, unless a frame of the harness comes first (then the harness itself called the dependency).
 fn innermost_repo_frame(bt: &str) -> Option<String> {
-    for line in bt.lines() {
-        let l = line.trim_start();
-        // frame lines look like "12: path::to::function"
-        let Some((idx, sym)) = l.split_once(": ") else { continue };
-        if idx.is_empty() || !idx.bytes().all(|b| b.is_ascii_digit()) {
-            continue;
-        }
-        let sym = sym.trim();
+    // frame lines look like "12: path::to::function"
+    let frames: Vec<&str> = bt
+        .lines()
+        .filter_map(|line| {
+            let (idx, sym) = line.trim_start().split_once(": ")?;
+            (!idx.is_empty() && idx.bytes().all(|b| b.is_ascii_digit())).then_some(sym.trim())
+        })
+        .collect();
+    // the first frames are this hook and the panic machinery
+    let start = frames
+        .iter()
+        .take(16)
+        .rposition(|s| s.contains("panicking::") || s.contains("rust_begin_unwind") || s.contains("install_panic_hook") || s.contains("rust_panic"))
+        .map_or(0, |i| i + 1);
+    for sym in frames.into_iter().skip(start) {
         if sym.starts_with("agsim::") || sym.starts_with("<agsim::") || sym.contains(" as agsim::") {
             return None;
         }
